@@ -971,10 +971,19 @@ class PDFDocument:
             if "First" in entry and "Last" in entry:
                 yield from siblings(entry["First"], level + 1)
 
+        visited: Set[int] = set()
+
         def siblings(entry: object, level: int) -> Iterator[PDFDocument.OutlineType]:
             # Walk the Next chain iteratively: recursing once per sibling
             # overflows the stack on long flat outlines.
             while entry is not None:
+                # An item reached again through a cyclic Next or First chain
+                # ends the walk instead of being listed for ever.
+                objid = getattr(entry, "objid", None)
+                if objid is not None:
+                    if objid in visited:
+                        break
+                    visited.add(objid)
                 yield from search(entry, level)
                 entry = dict_value(entry).get("Next")
 
